@@ -114,7 +114,7 @@ class FucSpec:
     def __init__(self, prop, file, qual, setup, post, fields=None, calls=None, loops=None, env=None, name=None,
                  exc_parents=None, exc_alias=None, subclass_of=None, subclass_of_closed=(), classes=(), absent_attrs=(),
                  getattr_hooks=None, setattr_hooks=None, hasattr_hooks=None, attr_hooks=None, subscript_hook=None,
-                 on_yield=None, max_paths=4000, replay=None, cover=(), trusted=(), note='', opts=None, clause='',
+                 on_yield=None, on_yield_from=None, max_paths=4000, replay=None, cover=(), trusted=(), note='', opts=None, clause='',
                  field_alias=None):
         self.field_alias = dict(field_alias or {})
         self.prop, self.file, self.qual = prop, file, qual
@@ -136,6 +136,7 @@ class FucSpec:
         self.attr_hooks = dict(attr_hooks or {})
         self.subscript_hook = subscript_hook
         self.on_yield = on_yield
+        self.on_yield_from = on_yield_from
         self.stmt_hooks = None
         self.first_line = 0
         self.max_paths = max_paths
